@@ -3,7 +3,7 @@ import ast
 from typing import Any, Callable, Dict, Iterator, List, Optional, Set, Tuple
 
 from ..cfg import ExcTypes
-from ..flow import attr_effects, enclosing_handlers
+from ..flow import attr_effects, enclosing_handlers, allfacts
 from ..model import ClassInfo, FuncInfo, Program, attr_chain, norm, walk_no_nested
 
 
@@ -86,6 +86,31 @@ def mutation_summary(prog: Program, funcs: List[FuncInfo], root: ClassInfo, chai
                     summ[f.name] = ['calls %s' % name]
                     changed = True
     return summ
+
+
+def dict_iter(target: ast.AST, it: ast.AST, chain: str) -> Optional[Dict[str, Any]]:
+    """How `for target in it` walks the mapping `chain`:
+    {'key': name|None, 'value': name|None, 'snapshot': bool} for it = chain | chain.keys() | chain.items() | chain.values(),
+    each optionally wrapped in list()/tuple()/sorted() (snapshot); None when `it` is not an iteration of chain."""
+    snapshot = False
+    while isinstance(it, ast.Call) and attr_chain(it.func) in ('list', 'tuple', 'sorted') and len(it.args) == 1 and not it.keywords:
+        it = it.args[0]
+        snapshot = True
+    view = 'keys'
+    if isinstance(it, ast.Call) and isinstance(it.func, ast.Attribute) and it.func.attr in ('items', 'keys', 'values') and not it.args:
+        view = it.func.attr
+        it = it.func.value
+    if attr_chain(it) != chain:
+        return None
+    key = value = None
+    if view == 'keys' and isinstance(target, ast.Name):
+        key = target.id
+    elif view == 'values' and isinstance(target, ast.Name):
+        value = target.id
+    elif view == 'items' and isinstance(target, ast.Tuple) and len(target.elts) == 2:
+        key = target.elts[0].id if isinstance(target.elts[0], ast.Name) else None
+        value = target.elts[1].id if isinstance(target.elts[1], ast.Name) else None
+    return {'key': key, 'value': value, 'snapshot': snapshot, 'view': view}
 
 
 def iteration_mutations(prog: Program, funcs: List[FuncInfo], root: ClassInfo, chain: str) -> Iterator[Tuple[FuncInfo, ast.AST, ast.AST, str]]:
@@ -190,7 +215,7 @@ def shutdown_hook_check(ch: Any, rule: str) -> None:
     sd = prog.own_method('HttpProtocolHandler', 'shutdown')
     gsd = cfg_of(sd, prog)
     n, cex = must_attempt(gsd, lambda a: any(isinstance(c, ast.Call) and attr_chain(c.func) == 'self.plugin.on_client_connection_close' for c in walk_no_nested(a)),
-                          lambda p: dict(p.facts()).get('self.plugin') is not False,
+                          lambda p: allfacts(p).get('self.plugin') is not False,
                           allowed_raisers=('self._flush',))
     ch.check(cex is None and n > 0, rule, sd, 'plugin.on_client_connection_close()',
              'attempted on all %d path(s) (exception edges included; self._flush() exempt: it handles BrokenPipeError itself and no other OSError could be provoked)' % n,
@@ -218,7 +243,7 @@ def idle_predicate_check(ch: Any, rule: str) -> None:
                 continue
             n4 += 1
             if isinstance(v, ast.Constant) and v.value is True:
-                if dict(p.facts()).get(HASBUF) is not False:
+                if allfacts(p).get(HASBUF) is not False:
                     bad4 = ('is_inactive() reports an idle connection without requiring an empty client buffer: the reaper closes connections with undelivered output', p.describe())
             else:
                 # boolean expression: must contain `not has_buffer()` as a conjunct
